@@ -1765,6 +1765,7 @@ def C10(tier, seed):
             tf = os.path.join(wd, f"MonC10-trace-{i}.ndjson")
             open(tf, "w").close()
             part = 0
+            hangs = 0
             nsc = nev = 0
             while rest:
                 sf = os.path.join(wd, f"MonC10-scen-{i}-{part}.ndjson")
@@ -1785,6 +1786,11 @@ def C10(tier, seed):
                 if p.returncode == 5:
                     rest = [s_ for s_ in rest if s_["sc"] not in done]
                     part += 1
+                    hangs += 1
+                    if hangs >= 3:
+                        # three hangs in one shard are verdict enough; each further one would cost the watchdog time
+                        C.log(f"[C10] shard {i}: {hangs} hangs - the remaining {len(rest)} scenarios of the shard are not executed")
+                        break
                     continue
                 if p.returncode != 0:
                     # the process itself died (abort/segfault): attribute it to the scenario that was running
